@@ -24,6 +24,28 @@ Lemma bottom_frames stk f : bottom stk = [f] ->
   frames_owed [] [f] = [] /\ frames_rel [] [f] = [] /\ frames_recv [f] = [] /\ dtoks [f] = [] /\ otoks [f] = [].
 Proof. intros _ H. destruct f as [[h|] r|d|t c]; try contradiction. repeat split. Qed.
 
+Lemma toks_ok_relay p n o r o' r' stk q h :
+  toks_ok n (FScript o r :: stk) q -> toks_ok (n + 1) (FScript o' r' :: stk) (q ++ relay p n h).
+Proof.
+  intros [A B C D E]. constructor; rsimpl.
+  - intros t Ht. specialize (A t Ht). lia.
+  - intros t Ht. specialize (B t Ht). lia.
+  - intros t Ht. rewrite map_app in Ht. apply in_app_or in Ht. destruct Ht as [Ht|Ht]; [specialize (C t Ht); lia|].
+    apply in_map_iff in Ht. destruct Ht as [x [<- Hx]]. destruct (relay_dir _ _ _ _ Hx) as [-> _]. lia.
+  - auto.
+  - intros t Ht I. rewrite map_app in I. apply in_app_or in I. destruct I as [I|I]; [exact (E t Ht I)|].
+    apply in_map_iff in I. destruct I as [x [<- Hx]]. destruct (relay_dir _ _ _ _ Hx) as [Et _].
+    specialize (A _ Ht). lia.
+Qed.
+
+Lemma dir_relay p n h q g :
+  (forall x h0 mm, In x q -> q_dir x = Some (h0, mm) -> inb h0 g = false) -> inb h g = false ->
+  forall x h0 mm, In x (q ++ relay p n h) -> q_dir x = Some (h0, mm) -> inb h0 g = false.
+Proof.
+  intros Hq Hh x h0 mm Hx Hd. apply in_app_or in Hx. destruct Hx as [Hx|Hx]; [exact (Hq _ _ _ Hx Hd)|].
+  destruct (relay_dir _ _ _ _ Hx) as [_ [m' Hd']]. rewrite Hd' in Hd. injection Hd as <- _. exact Hh.
+Qed.
+
 Section Sim.
 Variable p : params.
 Hypothesis Hk : keyf p = idk.
@@ -34,11 +56,11 @@ Lemma sim_action m s a o rest stk m' :
   do_action p m a o rest stk = Some m' ->
   exists s', sstep p s (EAct a) = Some s' /\ Rel p m' s'.
 Proof.
-  intros [Rtab Ralive Rgone Ren Rpend Rnext Rexc Rowed Rrel Rrecv Rtok] Hexc Hstk Hdo.
+  intros [Rtab Ralive Rgone Ren Rpend Rnext Rexc Rowed Rrel Rrecv Rtok Rdir] Hexc Hstk Hdo.
   destruct s as [sn sr sg se sp so srl srv sx]. destruct m as [T en q g n ex stk0].
   rsimpl. subst. unfold sstep. rsimpl.
   unfold do_action in Hdo. rewrite Hk in Hdo. rsimpl.
-  destruct a as [h|h|h|e x|b| | |h].
+  destruct a as [h|h|h|e x|b| | |h|h|h|h h2].
   - (* AAdd *)
     destruct (inb h g) eqn:Eg; injection Hdo as <-; (eexists; split; [reflexivity|]).
     + constructor; rsimpl; auto. eapply toks_ok_script; eauto.
@@ -74,6 +96,7 @@ Proof.
         -- auto.
         -- intros t Ht I. rewrite map_app in I. apply in_app_or in I. destruct I as [I|[I|[]]]; [exact (E t Ht I)|].
            cbn in I. specialize (A t Ht). lia.
+      * intros x0 h0 mm Hx Hd. apply in_app_or in Hx. destruct Hx as [Hx|[<-|[]]]; [exact (Rdir _ _ _ Hx Hd)|discriminate].
   - (* ASetEnabled *)
     destruct b; injection Hdo as <-; (eexists; split; [reflexivity|]).
     + constructor; rsimpl; auto.
@@ -101,13 +124,72 @@ Proof.
     match type of Hdo with (if ?c then _ else _) = _ => destruct c eqn:Eg end;
     injection Hdo as <-; (eexists; split; [reflexivity|]).
     1,3: constructor; rsimpl; auto; eapply toks_ok_script; eauto.
-    all: constructor; rsimpl; auto;
+    all: apply orb_false_iff in Eg; destruct Eg as [_ Eh];
+      constructor; rsimpl; auto;
       [ apply remove_handler_ok; auto
       | intros h' Hh'; rewrite inb_hdel in Hh'; apply andb_true_iff in Hh'; destruct Hh' as [H1 H2];
         rewrite inb_cons; apply negb_true_iff in H2; rewrite H2; cbn [orb]; auto
       | rewrite frames_owed_cons_gone; reflexivity
       | rewrite frames_rel_cons_gone; reflexivity
-      | eapply toks_ok_script; eauto ].
+      | eapply toks_ok_script; eauto
+      | intros x0 h0 mm Hx Hd; rewrite inb_cons;
+        pose proof (relay_holds_false _ _ Eh _ _ _ Hx Hd) as Hne; apply Z.eqb_neq in Hne; rewrite Hne;
+        cbn [orb]; exact (Rdir _ _ _ Hx Hd) ].
+  - (* ACreate *)
+    destruct (en || inb h g) eqn:Ec; [discriminate|]. apply orb_false_iff in Ec. destruct Ec as [-> Eg].
+    injection Hdo as <-. eexists; split; [reflexivity|].
+    constructor; rsimpl; auto.
+    + apply add_handler_ok; auto.
+    + intros h' Hh'. rewrite inb_hadd in Hh'. apply orb_true_iff in Hh'. destruct Hh' as [Hh'|Hh']; auto.
+      apply Z.eqb_eq in Hh'. subst. exact Eg.
+    + eapply toks_ok_relay; eauto.
+    + apply dir_relay; auto.
+  - (* ARemoveC *)
+    unfold leave_blocked in Hdo. rewrite onstack_recv, in_callback_recv in Hdo. unfold sleave_blocked. rsimpl.
+    set (rv := match o with Some h0 => h0 :: frames_recv stk | None => frames_recv stk end) in *.
+    match type of Hdo with (if ?c then _ else _) = _ => destruct c eqn:Eb end; [discriminate|].
+    injection Hdo as <-.
+    destruct (relay_holds h q) eqn:Eh; (eexists; split; [reflexivity|]); constructor; rsimpl; auto.
+    + apply remove_handler_ok; auto.
+    + intros h' Hh'. rewrite inb_hdel in Hh'. apply andb_true_iff in Hh'. destruct Hh' as [Hh' _]; auto.
+    + eapply toks_ok_script; eauto.
+    + apply remove_handler_ok; auto.
+    + intros h' Hh'. rewrite inb_hdel in Hh'. apply andb_true_iff in Hh'. destruct Hh' as [Hh' Hn].
+      rewrite inb_cons. apply negb_true_iff in Hn. rewrite Hn. cbn [orb]. auto.
+    + rewrite frames_owed_cons_gone. reflexivity.
+    + rewrite frames_rel_cons_gone. reflexivity.
+    + eapply toks_ok_script; eauto.
+    + intros x0 h0 mm Hx Hd. rewrite inb_cons.
+      pose proof (relay_holds_false _ _ Eh _ _ _ Hx Hd) as Hne. apply Z.eqb_neq in Hne. rewrite Hne.
+      cbn [orb]. exact (Rdir _ _ _ Hx Hd).
+  - (* AReplace *)
+    unfold leave_blocked in Hdo. rewrite onstack_recv, in_callback_recv in Hdo. unfold sleave_blocked. rsimpl.
+    set (rv := match o with Some h0 => h0 :: frames_recv stk | None => frames_recv stk end) in *.
+    match type of Hdo with (if ?c then _ else _) = _ => destruct c eqn:Eb end; [discriminate|].
+    injection Hdo as <-.
+    apply orb_false_iff in Eb. destruct Eb as [Eb _]. apply orb_false_iff in Eb. destruct Eb as [Eb Ene].
+    apply orb_false_iff in Eb. destruct Eb as [Een Eg2]. subst en. apply Z.eqb_neq in Ene.
+    assert (Hx2 : (h2 =? h) = false) by (apply Z.eqb_neq; congruence).
+    destruct (relay_holds h q) eqn:Eh; (eexists; split; [reflexivity|]); constructor; rsimpl; auto.
+    + apply add_handler_ok; auto. apply remove_handler_ok; auto.
+    + intros h' Hh'. rewrite inb_hadd in Hh'. apply orb_true_iff in Hh'. destruct Hh' as [Hh'|Hh'].
+      * rewrite inb_hdel in Hh'. apply andb_true_iff in Hh'. destruct Hh' as [Hh' _]; auto.
+      * apply Z.eqb_eq in Hh'. subst. exact Eg2.
+    + eapply toks_ok_relay; eauto.
+    + apply dir_relay; auto.
+    + apply add_handler_ok; auto. apply remove_handler_ok; auto.
+    + intros h' Hh'. rewrite inb_cons. rewrite inb_hadd in Hh'. apply orb_true_iff in Hh'. destruct Hh' as [Hh'|Hh'].
+      * rewrite inb_hdel in Hh'. apply andb_true_iff in Hh'. destruct Hh' as [Hh' Hn].
+        apply negb_true_iff in Hn. rewrite Hn. cbn [orb]. auto.
+      * apply Z.eqb_eq in Hh'. subst. rewrite Hx2. cbn [orb]. exact Eg2.
+    + rewrite frames_owed_cons_gone. reflexivity.
+    + rewrite frames_rel_cons_gone. reflexivity.
+    + eapply toks_ok_relay; eauto.
+    + apply dir_relay.
+      * intros x0 h0 mm Hx Hd. rewrite inb_cons.
+        pose proof (relay_holds_false _ _ Eh _ _ _ Hx Hd) as Hne. apply Z.eqb_neq in Hne. rewrite Hne.
+        cbn [orb]. exact (Rdir _ _ _ Hx Hd).
+      * rewrite inb_cons, Hx2. cbn [orb]. exact Eg2.
 Qed.
 
 Lemma sim_is m s h b o h' rest stk :
@@ -115,7 +197,7 @@ Lemma sim_is m s h b o h' rest stk :
   (h =? h') && Bool.eqb b (negb (inb h (gone m)) && is_handler (keyf p) h (tabs m)) = true ->
   exists s', sstep p s (EIs h b) = Some s' /\ Rel p (upd_stack m (FScript o rest :: stk)) s'.
 Proof.
-  intros [Rtab Ralive Rgone Ren Rpend Rnext Rexc Rowed Rrel Rrecv Rtok] Hexc Hstk Hc.
+  intros [Rtab Ralive Rgone Ren Rpend Rnext Rexc Rowed Rrel Rrecv Rtok Rdir] Hexc Hstk Hc.
   destruct s as [sn sr sg se sp so srl srv sx]. destruct m as [T en q g n ex stk0].
   rsimpl. subst. unfold sstep. rsimpl.
   apply andb_true_iff in Hc. destruct Hc as [_ Hb]. apply Bool.eqb_prop in Hb.
@@ -132,7 +214,7 @@ Lemma sim_call_disp m s d h mm t x stk d' f :
   call p (gone m) d h mm t x = Some (d', f) ->
   exists s', sstep p s (ECall h mm t x) = Some s' /\ Rel p (upd_stack m (f :: FDisp d' :: stk)) s'.
 Proof.
-  intros [Rtab Ralive Rgone Ren Rpend Rnext Rexc Rowed Rrel Rrecv Rtok] Hexc Hstk Hc.
+  intros [Rtab Ralive Rgone Ren Rpend Rnext Rexc Rowed Rrel Rrecv Rtok Rdir] Hexc Hstk Hc.
   destruct s as [sn sr sg se sp so srl srv sx]. destruct m as [T en q g n ex stk0].
   rsimpl. subst. unfold sstep. rsimpl.
   pose proof (call_scall p g d h mm t x Hk) as Hcs. rewrite Hc in Hcs. destruct Hcs as [Hs [Hf [Ht1 Ht2]]].
@@ -150,7 +232,7 @@ Lemma sim_call_rel m s r cur h mm t x stk m' :
       if enabled m && cur_done (gone m) cur then
         match seek (look (t_events (tabs m))) t (queue m) with
         | Some (q, qrest) =>
-            match call p (gone m) (q_tok q, q_arg q, look (t_events (tabs m)) (q_ev q)) h mm t x with
+            match call p (gone m) (q_tok q, q_arg q, targets (look (t_events (tabs m))) q) h mm t x with
             | Some (d', f) =>
                 Some {| tabs := tabs m; enabled := true; queue := qrest; gone := gone m;
                         next := next m; exc := false; stack := f :: FRel r (Some d') :: stk |}
@@ -162,7 +244,7 @@ Lemma sim_call_rel m s r cur h mm t x stk m' :
   end = Some m' ->
   exists s', sstep p s (ECall h mm t x) = Some s' /\ Rel p m' s'.
 Proof.
-  intros [Rtab Ralive Rgone Ren Rpend Rnext Rexc Rowed Rrel Rrecv Rtok] Hexc Hstk Hc.
+  intros [Rtab Ralive Rgone Ren Rpend Rnext Rexc Rowed Rrel Rrecv Rtok Rdir] Hexc Hstk Hc.
   destruct s as [sn sr sg se sp so srl srv sx]. destruct m as [T en q g n ex stk0].
   rsimpl. subst. unfold sstep. rsimpl.
   destruct Rtok as [A B C D E]. rsimpl.
@@ -188,13 +270,19 @@ Proof.
     rewrite (seek_ext _ (fun e => listeners p e sr) t q Rev) in Hc.
     destruct (seek (fun e => listeners p e sr) t q) as [[qe qrest]|] eqn:Eseek; [|discriminate].
     destruct (seek_some _ _ _ _ _ Eseek) as [Hq1 [Hq2 Hq3]].
-    destruct (call p g (q_tok qe, q_arg qe, look (t_events T) (q_ev qe)) h mm t x) as [[d' f]|] eqn:Ecall; [|discriminate].
-    pose proof (call_scall p g (q_tok qe, q_arg qe, look (t_events T) (q_ev qe)) h mm t x Hk) as Hcs. rewrite Ecall in Hcs. destruct Hcs as [Hs [Hf [Ht1 Ht2]]].
+    destruct (seek_In _ _ _ _ _ Eseek) as [Hin Hsub].
+    rewrite (targets_ext _ (fun e => listeners p e sr) qe Rev) in Hc.
+    assert (Hfa : fa g (targets (fun e => listeners p e sr) qe) = targets (fun e => listeners p e sr) qe).
+    { unfold targets. destruct (q_dir qe) as [[h0 m0]|] eqn:Ed.
+      - apply fa_all. intros y [<-|[]]. cbn [fst]. exact (Rdir _ _ _ Hin Ed).
+      - apply fa_listeners. exact Ralive. }
+    destruct (call p g (q_tok qe, q_arg qe, targets (fun e => listeners p e sr) qe) h mm t x) as [[d' f]|] eqn:Ecall; [|discriminate].
+    pose proof (call_scall p g (q_tok qe, q_arg qe, targets (fun e => listeners p e sr) qe) h mm t x Hk) as Hcs. rewrite Ecall in Hcs. destruct Hcs as [Hs [Hf [Ht1 Ht2]]].
     injection Hc as <-. rsimpl.
     rewrite owed_call_absent.
     2:{ rewrite dtoks_owed. intro I. exact (E t I Hq2). }
     rewrite Hsc, Hdone, Een.
-    unfold fa_d in Hs. rsimpl. rewrite Rev in Hs. rewrite fa_listeners in Hs by exact Ralive. rewrite Hs.
+    unfold fa_d in Hs. rsimpl. rewrite Hfa in Hs. rewrite Hs.
     subst f. apply andb_true_iff in Een. destruct Een as [Een _]. subst en.
     eexists; split; [reflexivity|].
     constructor; rsimpl; auto.
@@ -206,13 +294,14 @@ Proof.
       * intros t0 H0 [H1|[H1|H1]]; [apply (D t0 H0); left; exact H1| |apply (D t0 H0); right; apply in_or_app; right; exact H1].
         rewrite Ht3 in H1. subst t0. exact (E t H0 Hq2).
       * intros t0 H0 H1. exact (E t0 H0 (Hq3 t0 H1)).
+    + intros x0 h0 m0 Hx Hd. exact (Rdir _ _ _ (Hsub _ Hx) Hd).
 Qed.
 
 Lemma sim_ret m s h stk :
   Rel p m s -> exc m = false -> stack m = FScript (Some h) [] :: stk ->
   exists s', sstep p s ERet = Some s' /\ Rel p (upd_stack m stk) s'.
 Proof.
-  intros [Rtab Ralive Rgone Ren Rpend Rnext Rexc Rowed Rrel Rrecv Rtok] Hexc Hstk.
+  intros [Rtab Ralive Rgone Ren Rpend Rnext Rexc Rowed Rrel Rrecv Rtok Rdir] Hexc Hstk.
   destruct s as [sn sr sg se sp so srl srv sx]. destruct m as [T en q g n ex stk0].
   rsimpl. subst. unfold sstep. rsimpl.
   eexists; split; [reflexivity|]. constructor; rsimpl; auto.
@@ -224,7 +313,7 @@ Lemma sim_end_disp m s t t' x rem stk :
   (t =? t') && all_gone (gone m) rem = true ->
   exists s', sstep p s (EEnd t) = Some s' /\ Rel p (upd_stack m stk) s'.
 Proof.
-  intros [Rtab Ralive Rgone Ren Rpend Rnext Rexc Rowed Rrel Rrecv Rtok] Hexc Hstk Hc.
+  intros [Rtab Ralive Rgone Ren Rpend Rnext Rexc Rowed Rrel Rrecv Rtok Rdir] Hexc Hstk Hc.
   destruct s as [sn sr sg se sp so srl srv sx]. destruct m as [T en q g n ex stk0].
   rsimpl. subst. unfold sstep. rsimpl.
   apply andb_true_iff in Hc. destruct Hc as [Ht Hg]. apply Z.eqb_eq in Ht. subst t'.
@@ -249,7 +338,7 @@ Lemma sim_end_rel m s t t' cur stk m' :
    else None) = Some m' ->
   exists s', sstep p s (EEnd t) = Some s' /\ Rel p m' s'.
 Proof.
-  intros [Rtab Ralive Rgone Ren Rpend Rnext Rexc Rowed Rrel Rrecv Rtok] Hexc Hstk Hc.
+  intros [Rtab Ralive Rgone Ren Rpend Rnext Rexc Rowed Rrel Rrecv Rtok Rdir] Hexc Hstk Hc.
   destruct s as [sn sr sg se sp so srl srv sx]. destruct m as [T en q g n ex stk0].
   rsimpl. subst. unfold sstep. rsimpl.
   destruct Rtok as [A B C D E]. rsimpl.
@@ -283,6 +372,7 @@ Proof.
     try (apply Z.eqb_eq in H; subst; reflexivity).
   - apply andb_true_iff in H. destruct H as [H1 H2]. apply Z.eqb_eq in H1. apply Z.eqb_eq in H2. subst. reflexivity.
   - apply Bool.eqb_prop in H. subst. reflexivity.
+  - apply andb_true_iff in H. destruct H as [H1 H2]. apply Z.eqb_eq in H1. apply Z.eqb_eq in H2. subst. reflexivity.
 Qed.
 
 Lemma step_sim m s e m' :
@@ -290,14 +380,14 @@ Lemma step_sim m s e m' :
 Proof.
   intros R Hstep. unfold step in Hstep. destruct (exc m) eqn:Ex.
   - destruct e; try discriminate. injection Hstep as <-.
-    destruct R as [Rtab Ralive Rgone Ren Rpend Rnext Rexc Rowed Rrel Rrecv Rtok].
+    destruct R as [Rtab Ralive Rgone Ren Rpend Rnext Rexc Rowed Rrel Rrecv Rtok Rdir].
     destruct s as [sn sr sg se sp so srl srv sx]. destruct m as [T en q g n ex stk0].
     rsimpl. subst. unfold sstep. rsimpl. eexists; split; [reflexivity|]. constructor; rsimpl; auto.
-  - destruct e as [a|h b|h mm t x| |t|].
+  - destruct e as [a|h b|h mm t x| |t| |].
     + destruct (stack m) as [|[o [|a' rest]|d|r cur] stk] eqn:Es; try discriminate.
       destruct (action_eqb a a') eqn:Ea; [|discriminate]. apply action_eqb_eq in Ea. subst a'.
       eapply sim_action; eauto.
-    + destruct (stack m) as [|[o [|[| |h'| | | | |] rest]|d|r cur] stk] eqn:Es; try discriminate.
+    + destruct (stack m) as [|[o [|[| |h'| | | | | | | |] rest]|d|r cur] stk] eqn:Es; try discriminate.
       match type of Hstep with (if ?c then _ else _) = _ => destruct c eqn:Ec end; [|discriminate].
       injection Hstep as <-. eapply sim_is; eauto.
     + destruct (stack m) as [|[o rest|d|r cur] stk] eqn:Es; try discriminate.
@@ -311,6 +401,12 @@ Proof.
         injection Hstep as <-. eapply sim_end_disp; eauto.
       * eapply sim_end_rel; eauto.
     + destruct (stack m) as [|[o [|a' rest]|d|r cur] stk]; discriminate.
+    + destruct (stack m) as [|[o [|a' rest]|d|r cur] stk] eqn:Es; try discriminate.
+      destruct (skippable_action a'); [|discriminate]. injection Hstep as <-.
+      destruct R as [Rtab Ralive Rgone Ren Rpend Rnext Rexc Rowed Rrel Rrecv Rtok Rdir].
+      destruct s as [sn sr sg se sp so srl srv sx]. destruct m as [T en q g n ex stk0].
+      rsimpl. subst. unfold sstep. rsimpl. eexists; split; [reflexivity|].
+      constructor; rsimpl; auto. eapply toks_ok_script; eauto.
 Qed.
 
 Lemma run_sim log : forall m s m',
@@ -335,7 +431,7 @@ Proof.
   destruct (run p (init ops) log) as [m'|] eqn:Er; [|discriminate].
   destruct (run_sim _ _ _ _ (Rel_init ops) Er) as [s' [Hs R]]. rewrite Hs.
   unfold final_ok in H. apply andb_true_iff in H. destruct H as [H1 H2].
-  destruct R as [Rtab Ralive Rgone Ren Rpend Rnext Rexc Rowed Rrel Rrecv Rtok].
+  destruct R as [Rtab Ralive Rgone Ren Rpend Rnext Rexc Rowed Rrel Rrecv Rtok Rdir].
   destruct (stack m') as [|[[h|] [|a r]|d|t c] [|f2 l2]] eqn:Es; try discriminate.
   unfold sfinal_ok. rewrite Rowed, Rrel, Rrecv, Rexc. cbn. rewrite H1. reflexivity.
 Qed.
